@@ -508,18 +508,8 @@ func (g *Gen) Txn() []AOp {
 	return ops
 }
 
-// waitable reports whether the implementation's wait can be compared with
-// RFC 7047 on this column for this actual value: it compares sets in element
-// order, so only atoms, optionals and collections of at most one element
-// qualify (the rest is a known finding, probed separately).
-func waitable(c Col, actual interface{}) bool {
-	switch KindOf(c) {
-	case "atom", "opt":
-		return true
-	}
-	a, ok := actual.([]interface{})
-	return ok && len(a) <= 1
-}
+// waitable: every column kind can be waited on.
+func waitable(c Col, actual interface{}) bool { return true }
 
 func isDefaultAbs(c Col, v interface{}) bool { return IsDefaultAbs(c, v) }
 
@@ -547,13 +537,6 @@ func (g *Gen) fillWait(o *AOp, pending map[string][]string) {
 			v := actual
 			if g.chance(0.35) {
 				v = g.value(c, pending)
-				if a, ok := v.([]interface{}); ok && len(a) > 1 {
-					v = actual
-				}
-				// an expected default value is not compared by the implementation
-				if isDefaultAbs(c, v) {
-					v = actual
-				}
 			}
 			o.Columns = append(o.Columns, cn)
 			row[cn] = v
